@@ -206,3 +206,178 @@ async fn transfer_udp(socket: UdpSocket, current: ServerConfig<SslConfig>) {
     }
     .unwrap_or_else(|e| error!("[udp] transfer failed; error={}", e));
 }
+
+/// Verification wrappers (only compiled with `--cfg octo_verif`): thin public constructors for the
+/// codecs and handshake helpers that live in private modules of this crate.
+#[cfg(octo_verif)]
+pub mod verif {
+    use bytes::BytesMut;
+    use octo_squirrel::codec::DatagramPacket;
+    use octo_squirrel::codec::aead::CipherKind;
+    use octo_squirrel::config::ServerConfig;
+    use octo_squirrel::protocol::Protocol::*;
+    use octo_squirrel::protocol::address::Address;
+    use tokio_util::codec::Decoder;
+    use tokio_util::codec::Encoder;
+
+    use super::config::SslConfig;
+    use super::handshake;
+    use super::shadowsocks;
+    use super::trojan;
+    use super::vmess;
+
+    pub trait StreamCodec: Encoder<BytesMut, Error = anyhow::Error> + Decoder<Item = BytesMut, Error = anyhow::Error> + Send + Unpin {}
+    impl<T> StreamCodec for T where T: Encoder<BytesMut, Error = anyhow::Error> + Decoder<Item = BytesMut, Error = anyhow::Error> + Send + Unpin {}
+
+    pub trait PacketCodec: Encoder<DatagramPacket, Error = anyhow::Error> + Decoder<Item = DatagramPacket, Error = anyhow::Error> + Send + Unpin {}
+    impl<T> PacketCodec for T where T: Encoder<DatagramPacket, Error = anyhow::Error> + Decoder<Item = DatagramPacket, Error = anyhow::Error> + Send + Unpin {}
+
+    /// A client codec whose items are byte chunks (all TCP codecs; the VMess UDP codec).
+    pub struct ClientStream(Box<dyn StreamCodec>);
+
+    impl Encoder<BytesMut> for ClientStream {
+        type Error = anyhow::Error;
+
+        fn encode(&mut self, item: BytesMut, dst: &mut BytesMut) -> anyhow::Result<()> {
+            self.0.encode(item, dst)
+        }
+    }
+
+    impl Decoder for ClientStream {
+        type Item = BytesMut;
+        type Error = anyhow::Error;
+
+        fn decode(&mut self, src: &mut BytesMut) -> anyhow::Result<Option<BytesMut>> {
+            self.0.decode(src)
+        }
+    }
+
+    /// A client codec whose items are datagrams with an address (Shadowsocks UDP, Trojan UDP).
+    pub struct ClientPacket(Box<dyn PacketCodec>);
+
+    impl Encoder<DatagramPacket> for ClientPacket {
+        type Error = anyhow::Error;
+
+        fn encode(&mut self, item: DatagramPacket, dst: &mut BytesMut) -> anyhow::Result<()> {
+            self.0.encode(item, dst)
+        }
+    }
+
+    impl Decoder for ClientPacket {
+        type Item = DatagramPacket;
+        type Error = anyhow::Error;
+
+        fn decode(&mut self, src: &mut BytesMut) -> anyhow::Result<Option<DatagramPacket>> {
+            self.0.decode(src)
+        }
+    }
+
+    pub fn parse_config(json: &str) -> anyhow::Result<ServerConfig<SslConfig>> {
+        Ok(serde_json::from_str(json)?)
+    }
+
+    /// The codec `transfer_tcp` would build for one accepted connection to `addr`.
+    pub fn tcp_codec(config_json: &str, addr: &Address) -> anyhow::Result<ClientStream> {
+        let c = parse_config(config_json)?;
+        Ok(match c.protocol {
+            Shadowsocks => match c.cipher {
+                CipherKind::Aes128Gcm | CipherKind::Aead2022Blake3Aes128Gcm => {
+                    ClientStream(Box::new(shadowsocks::tcp::new_payload_codec::<16>(addr, shadowsocks::tcp::ClientContext::<16>::try_from(&c)?)?))
+                }
+                CipherKind::Aes256Gcm
+                | CipherKind::Aead2022Blake3Aes256Gcm
+                | CipherKind::ChaCha20Poly1305
+                | CipherKind::Aead2022Blake3ChaCha8Poly1305
+                | CipherKind::Aead2022Blake3ChaCha20Poly1305 => {
+                    ClientStream(Box::new(shadowsocks::tcp::new_payload_codec::<32>(addr, shadowsocks::tcp::ClientContext::<32>::try_from(&c)?)?))
+                }
+                CipherKind::Unknown => anyhow::bail!("unknown cipher kind"),
+            },
+            VMess => ClientStream(Box::new(vmess::tcp::new_codec(addr, (c.cipher, c.password.clone()))?)),
+            Trojan => ClientStream(Box::new(trojan::tcp::new_codec(addr, c.password.clone())?)),
+        })
+    }
+
+    /// Several codecs sharing one client context (as the flows of one running client do).
+    pub fn tcp_codecs_shared(config_json: &str, addrs: &[Address]) -> anyhow::Result<Vec<ClientStream>> {
+        let c = parse_config(config_json)?;
+        let mut out = Vec::new();
+        match (c.protocol, c.cipher) {
+            (Shadowsocks, CipherKind::Aes128Gcm | CipherKind::Aead2022Blake3Aes128Gcm) => {
+                let ctx = shadowsocks::tcp::ClientContext::<16>::try_from(&c)?;
+                for a in addrs {
+                    out.push(ClientStream(Box::new(shadowsocks::tcp::new_payload_codec::<16>(a, ctx.clone())?)));
+                }
+            }
+            (Shadowsocks, CipherKind::Unknown) => anyhow::bail!("unknown cipher kind"),
+            (Shadowsocks, _) => {
+                let ctx = shadowsocks::tcp::ClientContext::<32>::try_from(&c)?;
+                for a in addrs {
+                    out.push(ClientStream(Box::new(shadowsocks::tcp::new_payload_codec::<32>(a, ctx.clone())?)));
+                }
+            }
+            _ => {
+                for a in addrs {
+                    out.push(tcp_codec(config_json, a)?);
+                }
+            }
+        }
+        Ok(out)
+    }
+
+    /// The VMess datagram-in-stream codec (items are raw payloads; the target is in the header).
+    pub fn vmess_udp_codec(config_json: &str, addr: &Address) -> anyhow::Result<ClientStream> {
+        let c = parse_config(config_json)?;
+        Ok(ClientStream(Box::new(vmess::udp::new_codec(addr, &c)?)))
+    }
+
+    /// The Shadowsocks UDP codec of one binding, or the Trojan datagram-in-stream codec.
+    pub fn packet_codec(config_json: &str, addr: &Address) -> anyhow::Result<ClientPacket> {
+        use octo_squirrel::codec::shadowsocks::udp::AEADCipherCodec;
+        use octo_squirrel::codec::shadowsocks::udp::Context;
+        use octo_squirrel::codec::shadowsocks::udp::SessionCodec;
+        use octo_squirrel::protocol::shadowsocks::Mode;
+        use octo_squirrel::protocol::socks5::Socks5CommandType;
+        let c = parse_config(config_json)?;
+        Ok(match c.protocol {
+            Shadowsocks => match c.cipher {
+                CipherKind::Aes128Gcm | CipherKind::Aead2022Blake3Aes128Gcm => {
+                    let client = shadowsocks::udp::Client::<16>::new_static(c.clone())?;
+                    let (kind, key, identity_keys) = client.parts();
+                    ClientPacket(Box::new(shadowsocks::udp::DatagramPacketCodec::new(SessionCodec::new(
+                        Context::new(Mode::Client, None, key, identity_keys),
+                        AEADCipherCodec::new(kind),
+                    ))))
+                }
+                CipherKind::Unknown => anyhow::bail!("unknown cipher kind"),
+                _ => {
+                    let client = shadowsocks::udp::Client::<32>::new_static(c.clone())?;
+                    let (kind, key, identity_keys) = client.parts();
+                    ClientPacket(Box::new(shadowsocks::udp::DatagramPacketCodec::new(SessionCodec::new(
+                        Context::new(Mode::Client, None, key, identity_keys),
+                        AEADCipherCodec::new(kind),
+                    ))))
+                }
+            },
+            Trojan => ClientPacket(Box::new(trojan::udp::ClientCodec::new(c.password.as_bytes(), Socks5CommandType::UdpAssociate as u8, addr.clone()))),
+            VMess => anyhow::bail!("use vmess_udp_codec"),
+        })
+    }
+
+    /// Result of the private authority-extraction helper: (kind, address) or the error text.
+    pub fn recognize_http(method: &str, path: &str) -> Result<(&'static str, Address), String> {
+        match handshake::verif_recognize_http(method, path) {
+            Ok(handshake::Proxy::Http(a)) => Ok(("http", a)),
+            Ok(handshake::Proxy::Https(a)) => Ok(("https", a)),
+            Ok(handshake::Proxy::Socks5) => Err("socks5".to_owned()),
+            Ok(handshake::Proxy::Unknown) => Err("unknown".to_owned()),
+            Ok(handshake::Proxy::Error(e)) => Err(e),
+            Err(e) => Err(e.to_string()),
+        }
+    }
+
+    /// The local handshake entry point on an accepted local connection.
+    pub async fn get_request_addr(stream: &mut tokio::net::TcpStream) -> anyhow::Result<Address> {
+        handshake::get_request_addr(stream).await
+    }
+}
